@@ -42,6 +42,9 @@ impl<B: RingBuf<Item = Val>> Exec for BufExec<B> {
         end_step(&mut o);
         if let Some(b) = &self.buf {
             o.p = vec![b.len() as u64, b.is_empty() as u64, b.can_push() as u64, b.capacity() as u64];
+        } else {
+            // destruction of the buffer frees its storage: outside every allocation claim
+            o.a = 0;
         }
         o
     }
@@ -116,6 +119,9 @@ impl<B: RingBuf<Item = Zst>> Exec for ZstExec<B> {
         end_step(&mut o);
         if let Some(b) = &self.buf {
             o.p = vec![b.len() as u64, b.is_empty() as u64, b.can_push() as u64, b.capacity() as u64];
+        } else {
+            // destruction of the buffer frees its storage: outside every allocation claim
+            o.a = 0;
         }
         o
     }
